@@ -95,6 +95,22 @@ def install_api(I):
         f = z3.Function(str(name), *([z3.IntSort()] * len(args)), z3.BoolSort())
         return SV(f(*[ops.zint(a) for a in args]))
 
+    def den(interp, x):
+        """run-time integer denoted by an SSA value / single-result op (IR-term stubs)"""
+        if isinstance(x, (int, SV)):
+            return x
+        return interp.call(interp.load_module("xdsl.ir").globals["den"], [x], {})
+
+    def mk_memref_value(interp, type, rt_shape, rt_strides=None, rt_offset=0, rt_ptr=None):
+        cls = interp.load_module("xdsl.dialects.memref").globals["MemRefValue"]
+        return interp.call(cls, [type, rt_shape, rt_strides, rt_offset, rt_ptr], {})
+
+    def rt_shape(interp, m, d):
+        return interp.getitem(interp.getattr(m, "rt_shape"), d)
+
+    def rt_stride(interp, m, d):
+        return interp.getitem(interp.getattr(m, "rt_strides"), d)
+
     def unreachable(interp, why=""):
         interp.ctx.oblige(f"unreachable: {why}", False)
 
@@ -111,6 +127,10 @@ def install_api(I):
         fresh_int=NativeFn(fresh_int, "fresh_int"),
         unreachable=NativeFn(unreachable, "unreachable"),
         uf=NativeFn(uf, "uf"),
+        rt_shape=NativeFn(rt_shape, "rt_shape"),
+        rt_stride=NativeFn(rt_stride, "rt_stride"),
+        den=NativeFn(den, "den"),
+        mk_memref_value=NativeFn(mk_memref_value, "mk_memref_value"),
         ufb=NativeFn(ufb, "ufb"),
         SYMBOLIC=True,
     )
